@@ -499,4 +499,215 @@ theorem dd2_loop_spec (E : Ell ℝ) (dx dy : ℝ) (he : E.e2m ≠ 0) (fuel m ns 
             rw [this]; exact hnegl
           · rw [if_neg hM2] at h7; exact h7
 
+/-! ### the coefficients are the Taylor coefficients of the limit -/
+
+/-- `e^(n−1)·((1+e)ⁿ − (e−1)ⁿ)/2` as a polynomial in `q = e²`: `R_n q^(n/2)` for even `n`, `P_n q^((n−1)/2)` for odd `n` -/
+noncomputable def wseq (q : ℝ) (n : ℕ) : ℝ := if n % 2 = 0 then Rsum q n * q ^ (n / 2) else Psum q n * q ^ (n / 2)
+
+theorem wseq_rec (q : ℝ) (n : ℕ) : wseq q (n + 2) = 2 * q * wseq q (n + 1) + q * (1 - q) * wseq q n := by
+  rcases Nat.even_or_odd' n with ⟨K, rfl | rfl⟩
+  · have h0 : (2 * K) % 2 = 0 := by omega
+    have h1 : (2 * K + 1) % 2 = 1 := by omega
+    have h2 : (2 * K + 2) % 2 = 0 := by omega
+    have d0 : 2 * K / 2 = K := by omega
+    have d1 : (2 * K + 1) / 2 = K := by omega
+    have d2 : (2 * K + 2) / 2 = K + 1 := by omega
+    simp only [wseq, h0, h1, h2, d0, d1, d2, if_true, one_ne_zero, if_false]
+    have a := Rsum_succ q (2 * K + 1)
+    have b := Psum_succ q (2 * K)
+    have c := Rsum_succ q (2 * K)
+    rw [show 2 * K + 1 + 1 = 2 * K + 2 by ring] at a
+    rw [pow_succ]
+    linear_combination (q ^ K * q) * a - (q ^ K * q) * b + (q ^ K * q) * c
+  · have h0 : (2 * K + 1) % 2 = 1 := by omega
+    have h1 : (2 * K + 1 + 1) % 2 = 0 := by omega
+    have h2 : (2 * K + 1 + 2) % 2 = 1 := by omega
+    have d0 : (2 * K + 1) / 2 = K := by omega
+    have d1 : (2 * K + 1 + 1) / 2 = K + 1 := by omega
+    have d2 : (2 * K + 1 + 2) / 2 = K + 1 := by omega
+    simp only [wseq, h0, h1, h2, d0, d1, d2, if_true, one_ne_zero, if_false]
+    have a := Psum_succ q (2 * K + 1 + 1)
+    have b := Psum_succ q (2 * K + 1)
+    have c := Rsum_succ q (2 * K + 1)
+    rw [show 2 * K + 1 + 1 + 1 = 2 * K + 1 + 2 by ring] at a
+    rw [pow_succ]
+    linear_combination (q ^ K * q) * a + (q ^ K * q) * b - (q ^ K * q ^ 2) * c
+
+theorem dd2Coef_wseq (q : ℝ) (m : ℕ) : dd2Coef q m * q ^ (m / 2 + 1) = wseq q (m + 2) := by
+  rcases Nat.even_or_odd' m with ⟨K, rfl | rfl⟩
+  · rw [dd2Coef_even]
+    have h2 : (2 * K + 2) % 2 = 0 := by omega
+    have d2 : (2 * K + 2) / 2 = K + 1 := by omega
+    have d0 : 2 * K / 2 = K := by omega
+    simp only [wseq, h2, d2, d0, if_true]
+  · rw [dd2Coef_odd]
+    have h2 : (2 * K + 1 + 2) % 2 = 1 := by omega
+    have d2 : (2 * K + 1 + 2) / 2 = K + 1 := by omega
+    have d0 : (2 * K + 1) / 2 = K := by omega
+    simp only [wseq, h2, d2, d0, one_ne_zero, if_false]
+
+/-- the coefficients `a_j` with `Σ a_j dʲ = 1/(1 − q(1 − d)²)` as generated by the code: `a_0 = 1/(1−q)`, `a_{m+1} = −t_m·ee_m` -/
+noncomputable def dd2A (q : ℝ) : ℕ → ℝ
+  | 0 => 1 / (1 - q)
+  | m + 1 => -(dd2Coef q m * dd2ee q (1 - q) m)
+
+theorem dd2A_eq (q : ℝ) (j : ℕ) : dd2A q j = (-1) ^ j * wseq q (j + 1) / (1 - q) ^ (j + 1) := by
+  cases j with
+  | zero => simp [dd2A, wseq, Psum, Finset.sum_range_succ]
+  | succ m =>
+    simp only [dd2A, dd2ee]
+    rw [← dd2Coef_wseq]
+    rw [pow_succ (-1 : ℝ) m]
+    ring
+
+/-- **the coefficients generated by the `c`/`t`/`ee` recurrences of `DDatanhee2` are the Taylor coefficients of
+    `d ↦ 1/(1 − e²(1 − d)²)`** (the derivative of `atanhee` at `1 − d`): `(Σ_j a_j dʲ)·((1 − q) + 2q d − q d²) = 1` coefficient by coefficient,
+    for every `m` -/
+theorem dd2A_taylor (q : ℝ) (hq : q ≠ 1) :
+    (1 - q) * dd2A q 0 = 1 ∧ (1 - q) * dd2A q 1 + 2 * q * dd2A q 0 = 0 ∧
+      ∀ j, (1 - q) * dd2A q (j + 2) + 2 * q * dd2A q (j + 1) - q * dd2A q j = 0 := by
+  have h1q : (1 : ℝ) - q ≠ 0 := sub_ne_zero.mpr (Ne.symm hq)
+  refine ⟨by simp only [dd2A]; field_simp, ?_, fun j => ?_⟩
+  · rw [dd2A_eq, dd2A_eq]
+    have w2 : wseq q 2 = 2 * q := by
+      have : Rsum q 2 = 2 := by norm_num [Rsum, Finset.sum_range_succ, Nat.choose]
+      simp only [wseq, this]; norm_num
+    have w1 : wseq q 1 = 1 := by
+      have : Psum q 1 = 1 := by norm_num [Psum, Finset.sum_range_succ, Nat.choose]
+      simp only [wseq, this]; norm_num
+    rw [w2, w1]; field_simp; ring
+  · rw [dd2A_eq, dd2A_eq, dd2A_eq, wseq_rec q (j + 1)]
+    have e1 : (-1 : ℝ) ^ (j + 2) = (-1) ^ j := by rw [pow_add]; norm_num
+    have e2 : (-1 : ℝ) ^ (j + 1) = -(-1) ^ j := by rw [pow_succ]; ring
+    rw [e1, e2, show j + 2 + 1 = (j + 1) + 1 + 1 by ring, pow_succ (1 - q) (j + 1 + 1), pow_succ (1 - q) (j + 1)]
+    field_simp
+    ring
+
+/-! ### the rule repaired by 9562c37 stopped at the first negligible term -/
+
+/-- one iteration of the old loop -/
+theorem dd2old_step (E : Ell ℝ) (dx dy : ℝ) (he : E.e2m ≠ 0) (m ns fuel : ℕ) :
+    DDatanhee2LoopOld E dx dy (fuel + 1) (dd2State E.e2 E.e2m dx dy m ns) =
+      (if |dd2Sum E.e2 E.e2m dx dy (m + 1)| * (eps : ℝ) / 2 < |dd2Term E.e2 E.e2m dx dy (m + 1)| then
+          DDatanhee2LoopOld E dx dy fuel (dd2State E.e2 E.e2m dx dy (m + 1) 0)
+       else dd2Sum E.e2 E.e2m dx dy (m + 1)) := by
+  have hxy : dx * hsym dy dx m + dy ^ m * dy = hsym dy dx (m + 1) := by simp only [hsym]; ring
+  have hyy : dy ^ m * dy = dy ^ (m + 1) := by ring
+  have hee := dd2ee_succ E.e2 E.e2m he m
+  have hterm : dd2Coef E.e2 (m + 1) * dd2ee E.e2 E.e2m (m + 1) * hsym dy dx (m + 1) / ((m + 1 + 2 : ℕ) : ℝ) =
+      dd2Term E.e2 E.e2m dx dy (m + 1) := rfl
+  simp only [DDatanhee2LoopOld, dd2State, ltb_real, abs_real, ofNat_real', beq_iff_eq]
+  rw [hxy, hyy]
+  have hee' : (if (m + 1) % 2 = 0 then dd2ee E.e2 E.e2m m / -E.e2m * E.e2 else dd2ee E.e2 E.e2m m / -E.e2m) = dd2ee E.e2 E.e2m (m + 1) := by
+    have := hee
+    simp only [beq_iff_eq] at this
+    exact this
+  rw [hee', hterm]
+  simp only [dd2Sum, decide_eq_true_eq]
+  by_cases h : |dd2Sum E.e2 E.e2m dx dy m + dd2Term E.e2 E.e2m dx dy (m + 1)| * eps / 2 < |dd2Term E.e2 E.e2m dx dy (m + 1)|
+  · simp only [h, decide_true, Bool.not_true, Bool.false_eq_true, if_false, if_true]
+  · simp only [h, decide_false, Bool.not_false, if_true, if_false]
+
+/-- `(P_n, R_n)` at `e² = −3` for `n ≤ 7` -/
+theorem PR_minus_three_values :
+    Psum (-3 : ℝ) 3 = -8 ∧ Rsum (-3 : ℝ) 4 = -8 ∧ Psum (-3 : ℝ) 5 = 16 ∧ Rsum (-3 : ℝ) 6 = 0 ∧ Psum (-3 : ℝ) 7 = 64 := by
+  have p0 : Psum (-3 : ℝ) 0 = 1 := by norm_num [Psum, Finset.sum_range_succ, Nat.choose]
+  have r0 : Rsum (-3 : ℝ) 0 = 0 := by norm_num [Rsum, Finset.sum_range_succ, Nat.choose]
+  have p1 : Psum (-3 : ℝ) 1 = 1 := by rw [Psum_succ, p0, r0]; norm_num
+  have r1 : Rsum (-3 : ℝ) 1 = 1 := by rw [Rsum_succ, p0, r0]; norm_num
+  have p2 : Psum (-3 : ℝ) 2 = -2 := by rw [Psum_succ, p1, r1]; norm_num
+  have r2 : Rsum (-3 : ℝ) 2 = 2 := by rw [Rsum_succ, p1, r1]; norm_num
+  have p3 : Psum (-3 : ℝ) 3 = -8 := by rw [Psum_succ, p2, r2]; norm_num
+  have r3 : Rsum (-3 : ℝ) 3 = 0 := by rw [Rsum_succ, p2, r2]; norm_num
+  have p4 : Psum (-3 : ℝ) 4 = -8 := by rw [Psum_succ, p3, r3]; norm_num
+  have r4 : Rsum (-3 : ℝ) 4 = -8 := by rw [Rsum_succ, p3, r3]; norm_num
+  have p5 : Psum (-3 : ℝ) 5 = 16 := by rw [Psum_succ, p4, r4]; norm_num
+  have r5 : Rsum (-3 : ℝ) 5 = -16 := by rw [Rsum_succ, p4, r4]; norm_num
+  have p6 : Psum (-3 : ℝ) 6 = 64 := by rw [Psum_succ, p5, r5]; norm_num
+  have r6 : Rsum (-3 : ℝ) 6 = 0 := by rw [Rsum_succ, p5, r5]; norm_num
+  have p7 : Psum (-3 : ℝ) 7 = 64 := by rw [Psum_succ, p6, r6]; norm_num
+  exact ⟨p3, r4, p5, r6, p7⟩
+
+/-- the terms of `DDatanhee2` for `f = −1` (`e² = −3`, `1 − e² = 4`) at `x = y = 3/4` -/
+theorem dd2_terms_minus_three :
+    dd2Sum (-3 : ℝ) 4 (1 / 4) (1 / 4) 0 = -3 / 16 ∧ dd2Term (-3 : ℝ) 4 (1 / 4) (1 / 4) 1 = -1 / 16 ∧
+    dd2Term (-3 : ℝ) 4 (1 / 4) (1 / 4) 2 = -27 / 2048 ∧ dd2Term (-3 : ℝ) 4 (1 / 4) (1 / 4) 3 = -9 / 5120 ∧
+    dd2Term (-3 : ℝ) 4 (1 / 4) (1 / 4) 4 = 0 ∧ dd2Term (-3 : ℝ) 4 (1 / 4) (1 / 4) 5 = 81 / 917504 := by
+  obtain ⟨p3, r4, p5, r6, p7⟩ := PR_minus_three_values
+  have c1 : dd2Coef (-3 : ℝ) 1 = -8 := by have := dd2Coef_odd (-3 : ℝ) 0; simpa [p3] using this
+  have c2 : dd2Coef (-3 : ℝ) 2 = -8 := by have := dd2Coef_even (-3 : ℝ) 1; simpa [r4] using this
+  have c3 : dd2Coef (-3 : ℝ) 3 = 16 := by have := dd2Coef_odd (-3 : ℝ) 1; simpa [p5] using this
+  have c4 : dd2Coef (-3 : ℝ) 4 = 0 := by have := dd2Coef_even (-3 : ℝ) 2; simpa [r6] using this
+  have c5 : dd2Coef (-3 : ℝ) 5 = 64 := by have := dd2Coef_odd (-3 : ℝ) 2; simpa [p7] using this
+  refine ⟨?_, ?_, ?_, ?_, ?_, ?_⟩
+  · norm_num [dd2Sum, dd2ee]
+  · simp only [dd2Term, c1, dd2ee, hsym]; norm_num
+  · simp only [dd2Term, c2, dd2ee, hsym]; norm_num
+  · simp only [dd2Term, c3, dd2ee, hsym]; norm_num
+  · simp only [dd2Term, c4, dd2ee, hsym]; norm_num
+  · simp only [dd2Term, c5, dd2ee, hsym]; norm_num
+
+/-- partial sums and (non-)negligible terms of `DDatanhee2` for `f = −1` at `x = y = 3/4` -/
+theorem dd2_minus_three_facts :
+    dd2Sum (-3 : ℝ) 4 (1 / 4) (1 / 4) 3 = -2713 / 10240 ∧ dd2Sum (-3 : ℝ) 4 (1 / 4) (1 / 4) 4 = -2713 / 10240 ∧
+    ¬ dd2Negl (-3 : ℝ) 4 (1 / 4) (1 / 4) 1 ∧ ¬ dd2Negl (-3 : ℝ) 4 (1 / 4) (1 / 4) 2 ∧ ¬ dd2Negl (-3 : ℝ) 4 (1 / 4) (1 / 4) 3 ∧
+    dd2Negl (-3 : ℝ) 4 (1 / 4) (1 / 4) 4 ∧ ¬ dd2Negl (-3 : ℝ) 4 (1 / 4) (1 / 4) 5 := by
+  obtain ⟨s0, t1, t2, t3, t4, t5⟩ := dd2_terms_minus_three
+  have s1 : dd2Sum (-3 : ℝ) 4 (1 / 4) (1 / 4) 1 = -1 / 4 := by rw [dd2Sum, s0, t1]; norm_num
+  have s2 : dd2Sum (-3 : ℝ) 4 (1 / 4) (1 / 4) 2 = -539 / 2048 := by rw [dd2Sum, s1, t2]; norm_num
+  have s3 : dd2Sum (-3 : ℝ) 4 (1 / 4) (1 / 4) 3 = -2713 / 10240 := by rw [dd2Sum, s2, t3]; norm_num
+  have s4 : dd2Sum (-3 : ℝ) 4 (1 / 4) (1 / 4) 4 = -2713 / 10240 := by rw [dd2Sum, s3, t4]; norm_num
+  have s5 : dd2Sum (-3 : ℝ) 4 (1 / 4) (1 / 4) 5 = -2713 / 10240 + 81 / 917504 := by rw [dd2Sum, s4, t5]
+  have heps : (eps : ℝ) = 1 / 4503599627370496 := by simp only [eps, one_real, ofNat_real']; norm_num
+  refine ⟨s3, s4, ?_, ?_, ?_, ?_, ?_⟩
+  · simp only [dd2Negl, not_not, s1, t1, heps]; rw [abs_of_neg (by norm_num), abs_of_neg (by norm_num)]; norm_num
+  · simp only [dd2Negl, not_not, s2, t2, heps]; rw [abs_of_neg (by norm_num), abs_of_neg (by norm_num)]; norm_num
+  · simp only [dd2Negl, not_not, s3, t3, heps]; rw [abs_of_neg (by norm_num), abs_of_neg (by norm_num)]; norm_num
+  · simp only [dd2Negl, s4, t4, heps]; rw [abs_of_neg (by norm_num)]; norm_num
+  · simp only [dd2Negl, not_not, s5, t5, heps]; rw [abs_of_neg (by norm_num), abs_of_pos (by norm_num)]; norm_num
+
+theorem ell_minus_one : (⟨1, -1⟩ : Ell ℝ).e2 = -3 ∧ (⟨1, -1⟩ : Ell ℝ).e2m = 4 := by
+  constructor
+  · simp only [Ell.e2, two_real]; norm_num
+  · simp only [Ell.e2m, Ell.e2, one_real, two_real]; norm_num
+
+/-- **the old rule stops at the identically vanishing term**: for `f = −1`, `x = y = 3/4` the loop of the code before 9562c37 returns the
+    sum of the terms `m ≤ 3` although term 5 is not negligible -/
+theorem dd2_old_rule_stops_early :
+    DDatanhee2LoopOld (⟨1, -1⟩ : Ell ℝ) (1 / 4) (1 / 4) 400 (dd2State (-3) 4 (1 / 4) (1 / 4) 0 0) = dd2Sum (-3 : ℝ) 4 (1 / 4) (1 / 4) 3 ∧
+      ¬ dd2Negl (-3 : ℝ) 4 (1 / 4) (1 / 4) 5 := by
+  obtain ⟨he2, he2m⟩ := ell_minus_one
+  obtain ⟨s3, s4, n1, n2, n3, n4, n5⟩ := dd2_minus_three_facts
+  have he : (⟨1, -1⟩ : Ell ℝ).e2m ≠ 0 := by rw [he2m]; norm_num
+  refine ⟨?_, n5⟩
+  have st := dd2old_step (⟨1, -1⟩ : Ell ℝ) (1 / 4) (1 / 4) he
+  rw [he2, he2m] at st
+  simp only [dd2Negl, not_not] at n1 n2 n3
+  rw [show (400 : ℕ) = 399 + 1 by norm_num, st 0 0 399, if_pos n1]
+  rw [show (399 : ℕ) = 398 + 1 by norm_num, st 1 0 398, if_pos n2]
+  rw [show (398 : ℕ) = 397 + 1 by norm_num, st 2 0 397, if_pos n3]
+  rw [show (397 : ℕ) = 396 + 1 by norm_num, st 3 0 396, if_neg n4, s4, s3]
+
+/-- **the repaired rule does not**: on the same input the loop of the code runs at least to term 6 -/
+theorem dd2_new_rule_continues :
+    ∃ M, 6 ≤ M ∧ DDatanhee2Loop (⟨1, -1⟩ : Ell ℝ) (1 / 4) (1 / 4) 400 (dd2State (-3) 4 (1 / 4) (1 / 4) 0 0) = dd2Sum (-3 : ℝ) 4 (1 / 4) (1 / 4) M := by
+  obtain ⟨he2, he2m⟩ := ell_minus_one
+  obtain ⟨s3, s4, n1, n2, n3, n4, n5⟩ := dd2_minus_three_facts
+  have he : (⟨1, -1⟩ : Ell ℝ).e2m ≠ 0 := by rw [he2m]; norm_num
+  have sp := dd2_loop_spec (⟨1, -1⟩ : Ell ℝ) (1 / 4) (1 / 4) he 400 0 0 (by omega)
+  rw [he2, he2m] at sp
+  obtain ⟨M, h1, h2, h3, h4⟩ := sp
+  refine ⟨M, ?_, h3⟩
+  rcases h4 with h4 | ⟨h5, h6, h7⟩
+  · omega
+  · by_contra hlt
+    have hM : M ≤ 5 := by omega
+    have hc : M = 1 ∨ M = 2 ∨ M = 3 ∨ M = 4 ∨ M = 5 := by omega
+    rcases hc with rfl | rfl | rfl | rfl | rfl
+    · simp at h7
+    · exact n2 h6
+    · exact n3 h6
+    · simp only [show (4 : ℕ) ≠ 0 + 1 by norm_num, if_false] at h7; exact n3 h7
+    · exact n5 h6
+
 end GeoVerif.Proofs.ConicSeries
